@@ -585,20 +585,16 @@ func (tb *TermBuilder) IsIntReal(a *Term) *Term {
 
 // Bv2Int interprets a as unsigned or signed integer.
 func (tb *TermBuilder) Bv2Int(a *Term, signed bool) *Term {
-	w := a.sort.W
 	if a.IsConst() {
 		if signed {
 			return tb.Int64(a.sval())
 		}
 		return tb.Int(new(big.Int).SetUint64(a.u))
 	}
-	u := tb.mk("bv2nat", sortInt, a)
 	if !signed {
-		return u
+		return tb.mk("bv2nat", sortInt, a)
 	}
-	p := new(big.Int).Lsh(big.NewInt(1), uint(w))
-	neg := tb.bvCmp("bvslt", a, tb.BV(w, 0))
-	return tb.Ite(neg, tb.Sub(u, tb.Int(p)), u)
+	return tb.mk("sbv2int", sortInt, a) // printed as ite(bvslt a 0, bv2nat a - 2^w, bv2nat a)
 }
 
 func (tb *TermBuilder) Int2Bv(a *Term, w int) *Term {
@@ -678,6 +674,9 @@ func (t *Term) String() string {
 		return smtName(t.name)
 	}
 	var sb strings.Builder
+	if t.op == "sbv2int" {
+		return "(sbv2int " + t.args[0].String() + ")"
+	}
 	sb.WriteString("(" + t.head())
 	for _, a := range t.args {
 		sb.WriteString(" " + a.String())
